@@ -144,10 +144,11 @@ class SymExec:
     are walked in place (depth-limited), so that helper-of-helper calls
     (decode_number -> decode_int) disappear from the residual."""
 
-    def __init__(self, fn, bind=None, inline=None, depth=0, consts=None, max_depth=4):
+    def __init__(self, fn, bind=None, inline=None, depth=0, consts=None, max_depth=4, inline_methods=None):
         self.fn = fn
         self.events = []
         self.inline = inline or {}
+        self.inline_methods = inline_methods or {}     # method name -> FunctionDef: `self.m(args)` is walked in place
         self.depth = depth
         self.max_depth = max_depth
         self.consts = consts or {}
@@ -380,6 +381,10 @@ class SymExec:
             r = self.inline_call(self.inline[f[1]], args, kws, e)
             if r is not None:
                 return r
+        if f[0] == 'attr' and f[1] == ('param', 'self') and f[2] in self.inline_methods and self.depth < self.max_depth:
+            r = self.inline_call(self.inline_methods[f[2]], [f[1]] + args, kws, e)
+            if r is not None:
+                return r
         return t
 
     def inline_call(self, callee, args, kws, node):
@@ -399,7 +404,7 @@ class SymExec:
                 bind[p] = SymExec(callee, consts=self.consts).expr(d)
         if any(p not in bind for p in params):
             return None
-        sub = SymExec(callee, bind=bind, inline=self.inline, depth=self.depth + 1, consts=self.consts, max_depth=self.max_depth)
+        sub = SymExec(callee, bind=bind, inline=self.inline, depth=self.depth + 1, consts=self.consts, max_depth=self.max_depth, inline_methods=self.inline_methods)
         try:
             sub.run()
         except Unsupported:
